@@ -241,7 +241,7 @@ var ruleExecAddr = &Rule{
 			}
 		}
 		out.Counts["executor_field_addresses"] = naddr
-		out.Floors["executor_field_addresses"] = 30
+		out.Floors["executor_field_addresses"] = 10
 		if len(out.Obs) == 0 {
 			out.ok("no Executor memory is modified through a field's address", "path/exec", "", fmt.Sprintf("%d field addresses examined: loads and whole-field stores only", naddr))
 		}
